@@ -129,8 +129,11 @@ func alphabet(server bool) []op {
 			}
 			continue
 		}
-		for _, variant := range []string{"normal=true", "normal=false", "title", "mask(title),normal=true", "mask(normal)=true", "mask(normal,title)=true", "mask(title,normal)=true"} {
+		for _, variant := range []string{"normal=true", "normal=false", "title", "mask(title),normal=true", "mask(normal)=true", "mask(normal,title)=true", "mask(title,normal)=true", "upsert,mask(title)"} {
 			variant := variant
+			if server && strings.HasPrefix(variant, "upsert") {
+				continue // create-if-absent is a write option of the model API
+			}
 			mk := func(x *sys) (*traits.ElectricMode, *fieldmaskpb.FieldMask) {
 				md := &traits.ElectricMode{Id: x.id(id), Title: "u"}
 				var mask *fieldmaskpb.FieldMask
@@ -140,6 +143,11 @@ func alphabet(server bool) []op {
 				case "normal=false":
 				case "title":
 					md.Title = "u2"
+					mask = &fieldmaskpb.FieldMask{Paths: []string{"title"}}
+				case "upsert,mask(title)":
+					// an update that creates the mode when it is not there, writing one field: the mode it creates
+					// is a mode like any other (filed under its id AND carrying it)
+					md.Title = "u3"
 					mask = &fieldmaskpb.FieldMask{Paths: []string{"title"}}
 				case "mask(title),normal=true":
 					md.Normal = true
@@ -159,6 +167,10 @@ func alphabet(server bool) []op {
 			if !server {
 				ops = append(ops, op{name: fmt.Sprintf("UpdateMode(%s,%s)", id, variant), kind: "update", arg: id, run: func(x *sys) error {
 					md, mask := mk(x)
+					if strings.HasPrefix(variant, "upsert") {
+						_, err := x.m.UpdateMode(md, resource.WithCreateIfAbsent(), resource.WithUpdateMask(mask))
+						return err
+					}
 					_, err := x.m.UpdateMode(md, resource.WithUpdateMask(mask))
 					return err
 				}})
@@ -258,6 +270,12 @@ func (x *sys) canon(s snapshot) string {
 func invariants(x *sys, s snapshot) (string, string) {
 	if len(s.normals) > 1 {
 		return "two-normal-modes", fmt.Sprintf("modes %v are all marked normal", s.normals)
+	}
+	// every listed mode is reachable under the id it carries (the invariants are all phrased through that id)
+	for id := range s.modes {
+		if md, ok := x.m.FindMode(id); !ok || md.GetId() != id {
+			return "mode-not-under-its-id", fmt.Sprintf("Modes() lists a mode with id %q; FindMode(%q) = %v, %v", id, id, md, ok)
+		}
 	}
 	if x.changed {
 		if _, ok := s.modes[s.active.GetId()]; !ok {
